@@ -58,6 +58,15 @@ BX_WHY = {
 }
 
 
+def default_tag():
+    """Generated files are named <unit><tag>.rs.  Two checks of different properties may run at the same time and share
+    units, so the property id is part of the name (VERIF_TAG overrides it for scratch runs)."""
+    return os.environ.get('VERIF_TAG') or ('_' + CURRENT_PROP.lower() if CURRENT_PROP else '')
+
+
+CURRENT_PROP = ''
+
+
 def run_units(units, tier):
     results = {}
     kani_units = []
@@ -70,7 +79,7 @@ def run_units(units, tier):
             elif u.startswith('kani:'):
                 kani_units.append(u)
             else:
-                futs[ex.submit(vrun.run_unit, u, REPO, None, True, (), os.environ.get('VERIF_TAG', ''))] = u
+                futs[ex.submit(vrun.run_unit, u, REPO, None, True, (), default_tag())] = u
         kf = None
         if kani_units:
             import kx
@@ -86,7 +95,7 @@ def run_units(units, tier):
 def confirm_failures(unit, res):
     """Re-run a failing Verus unit once with a doubled resource limit; an obligation that does not
     fail again is undecided, not violated."""
-    r2 = vrun.run_unit(unit, REPO, rlimit=2 * vrun.DEFAULT_RLIMIT, tag=os.environ.get('VERIF_TAG', '') + '_confirm')
+    r2 = vrun.run_unit(unit, REPO, rlimit=2 * vrun.DEFAULT_RLIMIT, tag=default_tag() + '_confirm')
     if r2.status == 'undecided':
         return res.failures, []
     again = {(f['fn'], f['label']) for f in r2.failures}
@@ -110,6 +119,8 @@ def main():
     if a.replay:
         import replay
         return replay.run(prop, a.replay, REPO)
+    global CURRENT_PROP
+    CURRENT_PROP = prop
     spec = PROPS.P[prop]
     t0 = time.time()
     results = run_units(spec['units'], tier)
